@@ -27,6 +27,10 @@ def make_chooser(spec):
                                spec[3] if len(spec) > 3 else 300)
     if kind == 'fifo':
         return coop.FifoChooser()
+    if kind == 'lifo':
+        return coop.LifoChooser()
+    if kind == 'rr':
+        return coop.RoundRobinChooser()
     if kind == 'replay':
         return coop.ReplayChooser(spec[1])
     if kind == 'dfs':
